@@ -75,16 +75,50 @@ def replay(a):
         emit(f, res)
 
 
+def fresh_process_runner(prop, spec):
+    """Execute a program in a fresh interpreter (needed for session programs: the point of a session is
+    the state a process accumulates, so the minimiser's own earlier executions must not leak in)."""
+    import subprocess
+    import tempfile
+
+    def run(program):
+        d = tempfile.mkdtemp(prefix='fp-', dir=os.path.dirname(os.path.abspath(a_out[0])))
+        try:
+            fin, fout = os.path.join(d, 'in.json'), os.path.join(d, 'out.jsonl')
+            with open(fin, 'w') as f:
+                f.write(core.dumps({'property': prop, 'program': program}))
+            p = subprocess.run([sys.executable, os.path.abspath(__file__), 'replay', '--file', fin, '--out', fout],
+                               env=dict(os.environ), stdout=subprocess.DEVNULL, stderr=subprocess.DEVNULL,
+                               timeout=spec['watchdog_s'] * (len(program.get('ops', [])) + 1) + 300)
+            if p.returncode != 0 or not os.path.exists(fout):
+                return None
+            with open(fout) as f:
+                return json.loads(f.readline())
+        except Exception:
+            return None
+        finally:
+            import shutil
+            shutil.rmtree(d, ignore_errors=True)
+    return run
+
+
+a_out = [None]
+
+
 def minimise(a):
     with open(a.file) as f:
         rp = json.load(f)
     prop = rp['property']
     engine, spec = load_engine(prop)
     findings = core.load_known_findings()
+    a_out[0] = a.out
+    runner = fresh_process_runner(prop, spec) if rp['program'].get('session') else None
     best, nexec = core.minimise(engine, rp['program'], rp['target'], findings, prop,
                                 max_exec=a.max_exec, max_s=a.max_s,
-                                watchdog_s=spec['watchdog_s'])
-    res = core.execute(engine, best, focus=prop, watchdog_s=spec['watchdog_s'])
+                                watchdog_s=spec['watchdog_s'], runner=runner)
+    res = runner(best) if runner else core.execute(engine, best, focus=prop, watchdog_s=spec['watchdog_s'])
+    if res is None:
+        res = {'violations': [], 'digest': '', 'harness_error': 'fresh-process execution failed'}
     with open(a.out, 'w') as f:
         emit(f, {'program': best, 'result': res, 'executions': nexec})
 
